@@ -74,7 +74,7 @@ def recipe_masked_vs_deleted(ctx):
             # blank every input, or only some of them (the case is invalid as soon as one input is missing). CDF scores:
             # a deleted observation would also leave the common threshold grid, so all inputs are blanked there;
             # single-input functions must lose their own input
-            if nw is not None and rng.random() < 0.4:
+            if nw is not None and "threshold" not in rc.nondata and rng.random() < 0.4:
                 blank = {nw}                                # only the weight of the case is missing
                 ctx.count("recipe_only_weight_blanked")
             elif "threshold" in rc.nondata or rng.random() < 0.4:
